@@ -63,7 +63,7 @@ cbor_item_t* cbor_build_bytestring(cbor_data handle, size_t length) {
   _CBOR_NOTNULL(item);
   void* content = _cbor_malloc(length);
   _CBOR_DEPENDENT_NOTNULL(item, content);
-  memcpy(content, handle, length);
+  if (length > 0) memcpy(content, handle, length);
   cbor_bytestring_set_handle(item, content, length);
   return item;
 }
